@@ -422,6 +422,18 @@ def gen_plan(seed: int, cls: str) -> dict:
             if fr:
                 partials[rname] = fr
             ops.append({'op': 'subscript', 'name': rname, 't': ast, 'g': g, 'data': probe(ast)})
+            if ntv >= 2 and params[0] != params[1] and ro.random() < 0.4:
+                # the same arguments in the other positions: G[A, B] and G[B, A] are different classes
+                ast2 = ['gen', g] + list(reversed(params))
+                rname = f'r{nroot}'
+                nroot += 1
+                roots[rname] = ast2
+                fr2 = []
+                for p_ in ast2[2:]:
+                    free_typevars(p_, fr2)
+                if fr2:
+                    partials[rname] = fr2
+                ops.append({'op': 'subscript', 'name': rname, 't': ast2, 'g': g, 'data': probe(ast2)})
             if any(p_[0] == 'runion' for p_ in params) and ro.random() < 0.5:
                 # the same parameters spelled in the other order (equal to typing, different to pane)
                 params2 = [['runion'] + list(reversed(p_[1:])) if p_[0] == 'runion' else p_ for p_ in params]
